@@ -147,10 +147,25 @@ def rule_documented_errors(ctx: Ctx, rule: str) -> None:
     roles = decoder_roles(ctx, 'RE_NORM')
     nm = repo.func('util', 'norm_pattern.norm')
     q = fq(nm)
-    chrs = [c for c in walk_no_nested(nm.node) if isinstance(c, ast.Call) and norm_src(c.func) == 'chr' and 'int(' in norm_src(c)]
+    from .common import site_events
+    from ..symeval import _tag as _vt, focus as _focus
+
+    def decode_sites(fname: str) -> list:
+        out = []
+        for c0, hits in site_events(repo, 'util', 'norm_pattern.norm', lambda c: norm_src(c.func) == fname):
+            tags = set()
+            for p_, e_ in hits:
+                _focus(p_)
+                if e_[2]:
+                    tags.add(_vt(e_[2][0]))
+            if len(tags) == 1 and 'int(' in next(iter(tags)):
+                out.append((c0, next(iter(tags))))
+            elif tags:
+                out.append((c0, ' | '.join(sorted(tags))))
+        return out
+    chrs = decode_sites('chr')
     ctx.floor(rule, 'chr(int(...)) decodes', len(chrs), 2)
-    for c in chrs:
-        src = norm_src(c)
+    for c, src in chrs:
         if ', 16)' in src:
             widths = [rx.width(v)[1] for v in roles.get('numeric_forms', {}).values()]
             mx = max((16 ** w - 1) for w in widths if w) if widths else 0
@@ -174,11 +189,10 @@ def rule_documented_errors(ctx: Ctx, rule: str) -> None:
             w = rx.width(ol)[1] if ol is not None else 0
             mx = 8 ** (w or 0) - 1
             ctx.ob(rule, 'util:norm_pattern.norm/chr-octal-range', mx <= 0x10FFFF, repo.loc('util', c), 'octal escapes stay in range', f'max {mx:#x}')
-    bts = [c for c in walk_no_nested(nm.node) if isinstance(c, ast.Call) and norm_src(c.func) == 'bytes' and 'int(' in norm_src(c)]
-    for c in bts:
-        src = norm_src(c)
+    bts = decode_sites('bytes')
+    for c, src in bts:
         if ', 8)' in src:
-            ok = '& 255' in src or '% 256' in src
+            ok = '&255' in src.replace(' ', '') or '%256' in src.replace(' ', '')
             ctx.ob(rule, 'util:norm_pattern.norm/bytes-octal-range', ok, repo.loc('util', c), 'octal byte value masked to 0..255 (\\777 would raise ValueError)', src,
                    witness=r"fnmatch(b'x', br'\777', flags=RAWCHARS) must not raise")
         else:
